@@ -354,7 +354,9 @@ class Machine:
             self._return()
 
     def _return(self) -> None:
-        self._call_stack.unwind_loops()
+        stack_size = self._call_stack.unwind_loops()
+        if stack_size is not None:
+            self._vm_math.truncate_stack(stack_size)
         self._reg.pc = self._call_stack.get_return()
         self._call_stack.exit_routine()
 
@@ -377,10 +379,12 @@ class Machine:
                 self._reg.pc += 1
 
     def _loop(self) -> None:
-        self._call_stack.enter_loop()
+        self._call_stack.enter_loop(self._vm_math.stack_size())
 
     def _end_loop(self) -> None:
-        self._call_stack.exit_loop()
+        # If the loop was left early, names of lights it did not get to are
+        # still on the evaluation stack and belong to nobody.
+        self._vm_math.truncate_stack(self._call_stack.exit_loop())
 
     @inject(LightSet)
     def _matrix(self, light_set) -> None:
